@@ -173,6 +173,8 @@ func CombineFields(fields ...Field) Field {
 
 	float1Final := make(map[string]sample.Vec3ToFloat)
 	for attribute, functions := range float1Aggregate {
+		// the closure below outlives this iteration, it needs its own copy
+		functions := functions
 
 		tree := trees.NewOctree(float1Fields[attribute])
 
